@@ -33,6 +33,18 @@ def legality (j : Json) : Except String Json := do
         | .bool x => pure x
         | _ => throw "bool expected"
     return Json.mkObj [("reject", configGuard es)]
+  | "outrank" =>
+    -- ready[i][pos]: LoopOrder.is_ready of the i-th output rank's final id at loop position pos (queried on the real IR)
+    let ranks ← strList (← fld j "ranks")
+    let rows ← (← HF.arr (← fld j "ready")).toList.mapM fun e => do
+      (← HF.arr e).toList.mapM fun b => match b with
+        | .bool x => pure x
+        | _ => throw "bool expected"
+    let n := (← HF.intOf (← fld j "nloops")).toNat
+    let ready : String → Nat → Bool := fun r pos => match ranks.idxOf? r with
+      | some i => (rows.getD i []).getD pos false
+      | none => false
+    return Json.mkObj [("reject", outRankGuard ready ranks n)]
   | k => throw s!"unknown legality kind {k}"
 
 end Driver
